@@ -66,6 +66,19 @@ Definition stream_bit (bs : list N) (p : nat) : bool := N.testbit (nth (p / 8) b
 Definition field (w : nat) (bs : list N) (i : nat) : N :=
   N_of_bits (fun b => stream_bit bs (i * w + (w - 1 - b))) w.
 
+(* the same fields read sequentially (what a decoder does; equal to [field], Proofs/ThetaLayoutProofs.v):
+   the bits of the bytes, first stream bit first; consecutive w-bit groups, most significant bit first *)
+Definition byte_bits (b : N) : list bool := map (fun t => N.testbit b (N.of_nat (7 - t))) (seq 0 8).
+Fixpoint bits_of (bs : list N) : list bool :=
+  match bs with [] => [] | b :: r => byte_bits b ++ bits_of r end.
+Fixpoint msb_val (acc : N) (l : list bool) : N :=
+  match l with [] => acc | b :: r => msb_val (2 * acc + (if b then 1 else 0)) r end.
+Fixpoint fields_seq (cnt w : nat) (bits : list bool) : list N :=
+  match cnt with
+  | O => []
+  | S c => msb_val 0 (firstn w bits) :: fields_seq c w (skipn w bits)
+  end.
+
 Fixpoint prefix_sums (acc : N) (ds : list N) : list N :=
   match ds with [] => [] | d :: r => (acc + d) :: prefix_sums (acc + d) r end.
 
@@ -101,7 +114,7 @@ Definition dec_v4 (bs : list N) : option tabs :=
       let cnt := N.to_nat (u neb off bs) in
       let data := skipn (off + neb) bs in
       if negb (has ((cnt * w + 7) / 8) data) then None
-      else Some (mkAbs (prefix_sums 0 (map (field w data) (seq 0 cnt))) theta seed true false).
+      else Some (mkAbs (prefix_sums 0 (fields_seq cnt w (bits_of data))) theta seed true false).
 
 Definition dec_v2 (bs : list N) : option tabs :=
   let pre := nth 0 bs 0 in
